@@ -97,10 +97,10 @@ Definition normalize_content (o : option str) : option str :=
   | None => None
   end.
 
-(* ParserUtils.xsi_nil *)
+(* ParserUtils.xsi_nil: `xsi_nil.strip() in ("true", "1") if xsi_nil else None` *)
 Definition xsi_nil_of (attrs : list (qname * str)) : option bool :=
   match truthy_str (assoc XSI_NIL attrs) with
-  | Some s => Some (str_eqb s s_true)
+  | Some s => Some (str_eqb (py_strip s) s_true || str_eqb (py_strip s) [49])
   | None => None
   end.
 
